@@ -113,6 +113,40 @@ def run(rep: Report, tier: str) -> None:
 	lz_res = lazy.method('resolve')
 	rb.check(lz_res is not None and '__bind_proxy' in unparse(lz_res.node) and 'super().resolve(symbol)' in unparse(lz_res.node), 'lazy-resolve-binds-proxy', lz_res.where if lz_res else lazy.where, 'LazyDI.resolve no longer binds the lazily registered definition before delegating')
 
+	# ---- (b2) store keys are normalised symbols ------------------------------------------------------------------------
+	rk = rep.rule('C19/store-keys-normalised', 'every key used to index / test / delete the binding stores is the normalised symbol (result of _acceptable_symbol / __find_symbol for DI, __symbolize for LazyDI), never the raw argument', floor=10)
+	norm_calls = {'DI': ('_acceptable_symbol', '__find_symbol'), 'LazyDI': ('__symbolize',)}
+	for cls in (di, lazy):
+		for name, defs in cls.methods.items():
+			f = defs[-1]
+			if name in ('__init__', '_clone', 'combine', 'instantiate'):
+				continue
+			normalised = set()
+			for n in walk_no_nested(f.node):
+				if isinstance(n, ast.Assign) and len(n.targets) == 1 and isinstance(n.targets[0], ast.Name) and isinstance(n.value, ast.Call) and isinstance(n.value.func, ast.Attribute) and n.value.func.attr in norm_calls[cls.name]:
+					normalised.add(n.targets[0].id)
+			# private helpers of LazyDI receive the already symbolised path as `symbol_path`
+			if cls is lazy and name.startswith('__') and 'symbol_path' in f.params():
+				normalised.add('symbol_path')
+			for n in walk_no_nested(f.node):
+				key_expr, store = None, None
+				if isinstance(n, ast.Subscript):
+					a = n.value
+					if isinstance(a, ast.Attribute) and isinstance(a.value, ast.Name) and a.value.id == 'self' and mangle(cls.name, a.attr) in binding_stores[cls.name]:
+						key_expr, store = n.slice, a.attr
+				elif isinstance(n, ast.Compare) and len(n.ops) == 1 and isinstance(n.ops[0], (ast.In, ast.NotIn)):
+					a = n.comparators[0]
+					if isinstance(a, ast.Attribute) and isinstance(a.value, ast.Name) and a.value.id == 'self' and mangle(cls.name, a.attr) in binding_stores[cls.name]:
+						key_expr, store = n.left, a.attr
+				elif isinstance(n, ast.Call) and isinstance(n.func, ast.Attribute) and n.func.attr in ('pop', 'get', 'setdefault') and n.args:
+					a = n.func.value
+					if isinstance(a, ast.Attribute) and isinstance(a.value, ast.Name) and a.value.id == 'self' and mangle(cls.name, a.attr) in binding_stores[cls.name]:
+						key_expr, store = n.args[0], a.attr
+				if key_expr is None:
+					continue
+				ok = isinstance(key_expr, ast.Name) and key_expr.id in normalised
+				rk.check(ok, f'{cls.name}.{name}:{store}[{unparse(key_expr)}]', (DI_PY, n.lineno), f'{cls.name}.{name} accesses {store} with key `{unparse(key_expr)}`, which is not the normalised symbol ({sorted(normalised)}): a generic alias such as Gen[A] then addresses a different entry than Gen, so unbind/rebind leaves the old instance behind', unparse(n)[:100])
+
 	# ---- (c) error types, curry prefix ----------------------------------------------------------------------------------
 	rc = rep.rule('C19/error-types-and-curry', 'public API raises ValueError (TypeError only in combine); invoke curries the maximal resolvable prefix and passes *remain_args after it', floor=6)
 	for cls in (di, lazy):
